@@ -264,7 +264,8 @@ def cases(tier, seed):
     out.append({"stream": "long-digit-runs", "fn": "long", "args": [seed], "oseed": seed})
     for o in ({"exact": 0, "strict": 1, "df": 0, "yf": 1, "tz": None}, {"exact": 1, "strict": 1, "df": 1, "yf": 1, "tz": 3600},
               {"exact": 0, "strict": 0, "df": 0, "yf": 0, "tz": None}):
-        out.append({"stream": "witnesses", "fn": "given", "args": [WITNESSES], "opts": o})
+        for w in WITNESSES:      # one case per witness: every listed finding is the first failure of some case
+            out.append({"stream": "witnesses", "fn": "given", "args": [[w]], "opts": o})
     return out
 
 
